@@ -36,15 +36,30 @@ function inbucket.before.mail_from_accepted(session)
 end
 `
 
+// the same handler keeping its datum in a GLOBAL of the Lua state (each pooled state has its own
+// globals; handlers resolved once and reused across states would share them)
+const c17GateScriptGlobal = `
+function inbucket.before.mail_from_accepted(session)
+  who = session.from.address
+  local token = gate:receive()
+  if who == "deny@x.test" then
+    return smtp.deny(550, "no " .. who)
+  end
+  return smtp.allow()
+end
+`
+
 type c17SchedSpec struct {
-	ID    string
-	Level string // emit | session
-	Bound [2]int
+	ID     string
+	Level  string // emit | session
+	Global bool   // the script keeps its datum in a global
+	Bound  [2]int
 }
 
 func c17SchedSpecs() []c17SchedSpec {
 	return []c17SchedSpec{
 		{ID: "L1-two-emitters-pausing-handler", Level: "emit", Bound: [2]int{2, 3}},
+		{ID: "L3-two-emitters-handler-using-a-global", Level: "emit", Global: true, Bound: [2]int{2, 3}},
 		{ID: "L2-two-smtp-sessions-pausing-handler", Level: "session", Bound: [2]int{1, 2}},
 	}
 }
@@ -61,7 +76,11 @@ func c17SchedScenario(c *fw.Ctx, sp c17SchedSpec) schedScenario {
 			e = vsched.Run(cfg, func() (func(), []vsched.Thread, func()) {
 				smtp := sys.DefaultSMTP()
 				smtp.RejectOriginDomains = []string{"x.test"} // policy would refuse: allow() must win
-				s = sys.New(sys.Spec{Store: sys.StoreSpec{Backend: "mem"}, SMTP: smtp, Lua: c17GateScript, NoHub: true})
+				script := c17GateScript
+				if sp.Global {
+					script = c17GateScriptGlobal
+				}
+				s = sys.New(sys.Spec{Store: sys.StoreSpec{Backend: "mem"}, SMTP: smtp, Lua: script, NoHub: true})
 				gate = s.Lua.CreateChannel("gate")
 				record := func(who, ans string) { mu.Lock(); answers[who] = ans; mu.Unlock() }
 				var ths []vsched.Thread
